@@ -96,7 +96,7 @@ func init() {
 			for _, n := range jn {
 				js = append(js, J("proto/jsonproto", "VX_C06_JSONUnpackBytes", n, 16))
 			}
-			js = append(js, J("proto/httproto", "VX_C06_HTTPContentLength", 7, 65536), J("proto/httproto", "VX_C06_HTTPBytes", 0, 4), J("proto/httproto", "VX_C06_HTTPBytes", 1, 4))
+			js = append(js, J("proto/httproto", "VX_C06_HTTPContentLength", 7, 65536), J("proto/httproto", "VX_C06_HTTPOversizeOnSession", 0), J("proto/httproto", "VX_C06_HTTPOversizeOnSession", 1), J("proto/httproto", "VX_C06_HTTPBytes", 0, 4), J("proto/httproto", "VX_C06_HTTPBytes", 1, 4))
 			// the real session read loop around the raw parser
 			for _, n := range []int{0, 1, 4, 5} {
 				js = append(js, J(".", "VX_C06_SessionBytes", n, n%2))
